@@ -507,7 +507,14 @@ func (aof *AppendableFile) readAt(bs []byte, off int64) (n int, err error) {
 	var boff int
 
 	if off < aof.fileOffset {
-		n, err = aof.f.ReadAt(bs, aof.fileBaseOffset+off)
+		// never read the file beyond fileOffset: after SetOffset (the file is not truncated) or with
+		// preallocation it holds bytes that are not part of the log; what follows fileOffset is
+		// taken from the write buffer below
+		fbs := bs
+		if int64(len(fbs)) > aof.fileOffset-off {
+			fbs = bs[:aof.fileOffset-off]
+		}
+		n, err = aof.f.ReadAt(fbs, aof.fileBaseOffset+off)
 	} else {
 		boff = int(off - aof.fileOffset)
 	}
